@@ -518,6 +518,14 @@ func runWireCase(raw json.RawMessage, w *TraceWriter) {
 	o := guardedDecode(c.Kind, gin)
 	w.Ev("dec", "api", "buffer", "kind", c.Kind, "frag", "slice", "in", inJSON, "ok", o.ok, "n", o.n, "used", o.n, "val", Raw(o.val),
 		"tid", tidOf(o.err), "srcerr", false, "panic", o.panicd)
+	// the same decode with the span-cache allocator on (string-bearing kinds take another allocation path)
+	if c.Kind == "string" || c.Kind == "binary" || c.Kind == "msgbegin" {
+		thrift.SetSpanCache(true)
+		o2 := guardedDecode(c.Kind, gin)
+		thrift.SetSpanCache(false)
+		w.Ev("dec", "api", "buffer", "kind", c.Kind, "frag", "slice+spancache", "in", inJSON, "ok", o2.ok, "n", o2.n, "used", o2.n, "val", Raw(o2.val),
+			"tid", tidOf(o2.err), "srcerr", false, "panic", o2.panicd)
+	}
 	// stream reader under fragmentations (it allocates the declared string length: capped)
 	if declaredStr(c.Kind, in) > allocCap {
 		return
